@@ -153,6 +153,7 @@ func c01Round(nref, npeer, rounds int) {
 	c01clk = clk
 	refMax := cfg.ReferenceClockImpact * float64(clk.drift)
 	peerMax := cfg.PeerClockImpact * float64(clk.drift)
+	v.Assume(!(peerMax >= 4.6e18)) // see VerifC01Exact
 	stopped := v.Panics(func() {
 		Run(slog.New(slog.DiscardHandler), cfg, clk, adj, c01clks(0, nref), c01clks(1, npeer))
 	})
@@ -195,6 +196,9 @@ func VerifC01Exact() {
 	refMax := cfg.ReferenceClockImpact * float64(clk.drift)
 	peerMax := cfg.PeerClockImpact * float64(clk.drift)
 	v.Assume(refMax > 0 && peerMax > 0)
+	// bounds of 2^62 ns (146 years) and more do not constrain an int64 correction in any meaningful way
+	// (and the midpoint of two such values may wrap): the claim is made for bounds below 2^62 ns
+	v.Assume(peerMax < 4.6e18)
 	stopped := v.Panics(func() {
 		Run(slog.New(slog.DiscardHandler), cfg, clk, adj, c01clks(0, 1), c01clks(1, 1))
 	})
